@@ -101,6 +101,36 @@ Section V234.
     destruct (mc_maxlen c <? n)%nat; [discriminate|]. destruct (n =? 0)%nat; [discriminate|].
     inversion H. right. eauto.
   Qed.
+
+  (* "declines - without error - when the new end would precede that start": a previous report ending at pts, the consensus
+     timestamp below pts + 1, and nothing else wrong with the round: the answer is (false, nil), never an error *)
+  Theorem v234_must_decline pts ts :
+    prev = Some (Ok pts) -> 0 <= pts < max_uint32 ->
+    (mc_f c + 1 <= length (omap (parse234 ver) obs))%nat ->
+    consensus_timestamp (map p_ts (omap (parse234 ver) obs)) = Ok ts -> ts < pts + 1 ->
+    (max_uint32 <? ts + mc_window c) = false ->
+    is_ok (consensus_price (map p_bm (omap (parse234 ver) obs)) (mc_f c)) = true ->
+    (ver = 3 -> is_ok (consensus_price (map p_bid (omap (parse234 ver) obs)) (mc_f c)) = true /\
+                is_ok (consensus_price (map p_ask (omap (parse234 ver) obs)) (mc_f c)) = true) ->
+    (ver = 4 -> is_ok (market_status (map p_status (omap (parse234 ver) obs)) (mc_f c)) = true) ->
+    report234 ver c prev replen obs = Ok (false, None).
+  Proof.
+    intros Hp Hr Hlen Hts Hlt Hexp Hbm H3 H4. unfold report234. subst prev.
+    destruct (omap (parse234 ver) obs) as [|p0 ps] eqn:Ep; [simpl in Hlen; lia|]. rewrite <- Ep in *.
+    destruct (length _ <? mc_f c + 1)%nat eqn:El; [apply Nat.ltb_lt in El; lia|].
+    rewrite Hts.
+    assert (Em : (pts =? max_uint32) = false) by lia. rewrite Em.
+    rewrite (Z.mod_small (pts + 1) (2 ^ 32)) by (unfold max_uint32 in *; lia).
+    rewrite Hexp, Hbm.
+    assert (Hbid : is_ok (if ver =? 3 then consensus_price (map p_bid (omap (parse234 ver) obs)) (mc_f c) else Ok 0) = true).
+    { destruct (ver =? 3) eqn:E; [apply H3; lia|reflexivity]. }
+    assert (Hask : is_ok (if ver =? 3 then consensus_price (map p_ask (omap (parse234 ver) obs)) (mc_f c) else Ok 0) = true).
+    { destruct (ver =? 3) eqn:E; [apply H3; lia|reflexivity]. }
+    assert (Hst : is_ok (if ver =? 4 then market_status (map p_status (omap (parse234 ver) obs)) (mc_f c) else Ok 0) = true).
+    { destruct (ver =? 4) eqn:E; [apply H4; lia|reflexivity]. }
+    rewrite Hbid, Hask, Hst. cbn [orb negb rf_ts rf_valid_from].
+    assert (Et : (ts <? pts + 1) = true) by lia. rewrite Et. reflexivity.
+  Qed.
 End V234.
 
 (* ---- threaded histories: each emitted report becomes the next round's previous report; the codec reads back
